@@ -31,6 +31,8 @@ KINDS = [
     ('item_post', 'POST', '/item/{nm}?id={i}', b'body-{i}'),
     ('item_put', 'PUT', '/item/{nm}?id={i}', b'body-{i}'),
     ('item_del', 'DELETE', '/item/{nm}?id={i}', b''),
+    ('doc', 'GET', '/doc?id={i}', b''),
+    ('docv2', 'GET', '/doc?v=2&id={i}', b''),
     ('boom', 'GET', '/boom?id={i}', b''),
     ('redir', 'GET', '/dir?id={i}', b''),
     ('dir', 'GET', '/dir/?id={i}', b''),
@@ -62,7 +64,7 @@ _APPS = {}
 def app_for(cfg):
     k = canon(cfg)
     if k not in _APPS:
-        if len(_APPS) > 64:
+        if len(_APPS) > 100:
             _APPS.clear()
         _APPS[k] = threads_app.build(cfg)
     return _APPS[k]
@@ -141,6 +143,10 @@ def predict(cfg, r):
         return (200, 'iput|%s|%s|%d' % (nm, tok, i), None, None)
     if k == 'item_del':
         return (405, None, 'GET,HEAD,POST,PUT', None)
+    if k == 'doc':
+        return (200, 'doc|%s|%d' % (tok, i), None, None)
+    if k == 'docv2':
+        return (200, 'docv2|%s|%d' % (tok, i), None, None)
     if k == 'post':
         return (200, 'post|%s|%d|body-%d' % (tok, i, i), None, None)
     if k == 'm405':
@@ -176,6 +182,7 @@ def comparable(s):
 
 
 _CAL = {}
+_CAL_APPS = {}
 
 
 def solo_steps(cfg, req, gran):
@@ -184,15 +191,35 @@ def solo_steps(cfg, req, gran):
     key = (canon(cfg), req['kind'], req.get('accept'), gran)
     if key not in _CAL:
         # an application of its own: calibration must not touch the ones the runs are judged on
-        ck = 'calibration:' + canon(cfg)
-        if ck not in _APPS:
-            _APPS[ck] = threads_app.build(cfg)
-        app = _APPS[ck]
+        ck = canon(cfg)
+        if ck not in _CAL_APPS:
+            _CAL_APPS[ck] = threads_app.build(cfg)
+        app = _CAL_APPS[ck]
         do_request(app, req)
         s = BatonScheduler(['T0'], [], gran, WATCH)
         s.run({'T0': lambda: do_request(app, req)})
         _CAL[key] = s.steps
     return _CAL[key]
+
+
+_FUNCS = {}
+_CANON_CFG = {'tok': True, 'eptok': True, 'rendermw': True, 'echo_errors': True, 'slash': 'redirect'}
+
+
+def solo_funcs(cfg, req):
+    """Names of the functions (of the tree under test and the generated chains) a request of this KIND runs through.
+    The catalogue is made once per process, always the same way (one fresh application, every kind in catalogue order,
+    warmed twice), so that it is a function of the code alone -- not of what this process happened to run before."""
+    if not _FUNCS:
+        app = threads_app.build(_CANON_CFG)
+        for kind in [k[0] for k in KINDS]:
+            r = dict(make_request(kind, 11, 'calib'), name='T0')
+            do_request(app, r)
+            do_request(app, r)
+            s = BatonScheduler(['T0'], [], 'line', WATCH, record_funcs=True)
+            s.run({'T0': lambda: do_request(app, r)})
+            _FUNCS[kind] = sorted(n for n in s.func_steps if not n.startswith('ep_') and n not in ('<lambda>', 'rid'))
+    return _FUNCS[req['kind']]
 
 
 class C12(Check):
@@ -206,8 +233,8 @@ class C12(Check):
                   'not proof: exploration is the honest level for a schedule-quantified property.')
     level_note = ('Trusted: CPython 3.12 sys.monitoring event delivery, the baton scheduler, GIL atomicity of '
                   'single instructions. Yield points exist only in clastic/generated/harness code.')
-    runs = {'quick': 3000, 'thorough': 100000}
-    shrink_lists = (('preempts',), ('ticks',), ('requests',), ('marathon', 'T0'), ('marathon', 'T1'), ('marathon', 'T2'), ('marathon', 'T3'))
+    runs = {'quick': 2000, 'thorough': 100000}
+    shrink_lists = (('preempts',), ('hot_bits',), ('hot_funcs',), ('ticks',), ('requests',), ('marathon', 'T0'), ('marathon', 'T1'), ('marathon', 'T2'), ('marathon', 'T3'))
     hashseeds = {'quick': ['1:O'], 'thorough': ['1:O', 2]}
     rule = ('seeded schedules (PCT priority-change, uniform random, targeted bursts) plus a complete '
             'depth-1 pre-emption sweep over ordered request pairs; 2-4 real threads on one shared '
@@ -226,7 +253,7 @@ class C12(Check):
                  'OS threads (parked/released one at a time)'],
         'stub': ['WSGI server and HTTP clients (SimGateway)', 'thread scheduling choice (BatonScheduler)'],
     }
-    required_probes = ('predicted-response-compared', 'marathon', 'cold-application', 'switch-in-clastic', 'switch-in-sinter', 'gran-ins', 'gran-line', 'threads-4')
+    required_probes = ('function-focused-preemption', 'predicted-response-compared', 'marathon', 'cold-application', 'switch-in-clastic', 'switch-in-sinter', 'gran-ins', 'gran-line', 'threads-4')
 
     # ---- generation ------------------------------------------------------
     def gen_config(self, rng):
@@ -255,9 +282,17 @@ class C12(Check):
         names = [r['name'] for r in reqs]
         order = list(names)
         sch.shuffle(order)
-        mode = sch.choice(['pct', 'pct', 'uniform', 'burst'])
+        mode = sch.choice(['pct', 'pct', 'uniform', 'burst', 'hot', 'hot'])
         pre = []
-        if mode == 'pct':
+        hot_funcs, hot_bits = [], []
+        if mode == 'hot':
+            # function-focused: threads are parked INSIDE one to three functions of the framework, at whatever line
+            names_f = sorted(set(f for r in reqs for f in solo_funcs(cfg, r)))
+            hot_funcs = sch.sample(names_f, min(len(names_f), sch.choice([1, 2, 3])))
+            hot_bits = [1 if sch.random() < 0.5 else 0 for _ in range(60)]
+        if mode == 'hot':
+            pass
+        elif mode == 'pct':
             d = sch.choice([1, 2, 2, 3, 4])
             for _ in range(d):
                 pre.append([sch.randint(1, max(1, total)), 'demote'])
@@ -275,7 +310,7 @@ class C12(Check):
                     pre.append([k, sch.choice(names)])
         pre.sort(key=lambda x: x[0])
         return {'world': 'threads', 'seed': seed, 'config': cfg, 'requests': reqs, 'granularity': gran,
-                'order': order, 'preempts': pre, 'mode': mode,
+                'order': order, 'preempts': pre, 'mode': mode, 'hot_funcs': hot_funcs, 'hot_bits': hot_bits,
                 # cold: the threads hit a freshly built application whose very first requests these are
                 # (lazy initialisation races); the expected responses come from a warm twin
                 'cold': S['config'].random() < 0.3,
@@ -328,9 +363,9 @@ class C12(Check):
         requests are in flight.  Expected responses are predicted, not measured (a warm-up would pre-fill such tables)."""
         rng = Streams(base_seed)['marathon']
         cfg = {'tok': True, 'eptok': False, 'rendermw': False, 'echo_errors': False, 'slash': 'redirect'}
-        for k in range(64 if tier == 'quick' else 600):
+        for k in range(48 if tier == 'quick' else 600):
             nthreads = rng.choice([3, 4, 4])
-            n = rng.choice([250, 350, 450])
+            n = rng.choice([180, 220, 260] if tier == 'quick' else [250, 350, 450])
             tag = 'm%d_%d' % (base_seed % 100000, k)
             names = ['T%d' % t for t in range(nthreads)]
             seqs = {}
@@ -344,8 +379,13 @@ class C12(Check):
             while step < total:
                 step += max(1, int(rng.expovariate(p)))
                 pre.append([step, rng.choice(names)])
+            # besides the seeded switches: threads are parked inside a few functions of the framework (chosen per plan)
+            # whenever they pass through them -- tables are filled and recycled in small functions
+            fnames = solo_funcs(cfg, dict(make_request('br', 11, 'calib'), name='T0'))
+            hot = rng.sample(fnames, min(len(fnames), 4))
+            bits = [1 if rng.random() < 0.4 else 0 for _ in range(4000)]
             yield {'world': 'threads', 'seed': base_seed, 'config': cfg, 'marathon': seqs, 'granularity': 'line',
-                   'order': names, 'preempts': pre, 'mode': 'marathon', 'requests': []}
+                   'order': names, 'preempts': pre, 'mode': 'marathon', 'requests': [], 'hot_funcs': hot, 'hot_bits': bits}
 
     def extra_plans(self, tier, base_seed):
         for p in self.depth1_plans(tier, base_seed):
@@ -371,7 +411,8 @@ class C12(Check):
                 got[name] = out
             return run
         tasks = dict((name, runner_for(name, seq)) for name, seq in plan['marathon'].items())
-        sched = BatonScheduler(plan['order'], plan['preempts'], plan['granularity'], WATCH, max_steps=2000000, join_timeout=120.0)
+        sched = BatonScheduler(plan['order'], plan['preempts'], plan['granularity'], WATCH, max_steps=2000000, join_timeout=120.0,
+                               hot_funcs=plan.get('hot_funcs'), hot_bits=plan.get('hot_bits'))
         sched.run(tasks)
         res.steps = sched.steps
         res.nontrivial = bool(sched.switches)
@@ -448,7 +489,10 @@ class C12(Check):
         if cold:
             app = threads_app.build(plan['config'])      # nobody has called it yet
             res.probe('cold-application')
-        sched = BatonScheduler(order, plan['preempts'], plan['granularity'], WATCH, ticks=plan.get('ticks'), clock=clock)
+        sched = BatonScheduler(order, plan['preempts'], plan['granularity'], WATCH, ticks=plan.get('ticks'), clock=clock,
+                               hot_funcs=plan.get('hot_funcs'), hot_bits=plan.get('hot_bits'))
+        if plan.get('hot_funcs'):
+            res.probe('function-focused-preemption')
         sched.run(tasks)
         if plan.get('ticks'):
             res.fire('clock_tick_during_requests', len(plan['ticks']))
@@ -463,6 +507,7 @@ class C12(Check):
         res.probe('threads-%d' % len(reqs))
         for sw in sched.switches:
             res.probe('switch-in-sinter' if sw[3] in ('next', 'process_request') else 'switch-in-clastic')
+        res.ev('plan', plan.get('mode'), [r['kind'] for r in reqs], plan.get('hot_funcs'), 'cold' if cold else 'warm')
         res.ev('run', plan['granularity'], 'threads', len(reqs), 'steps', sched.steps,
                'switches', len(sched.switches), 'inter', inter)
         for name in names:
